@@ -3,11 +3,11 @@ package model
 import (
 	"bytes"
 	"encoding/binary"
-	"fmt"
 	"hash/fnv"
 	"math"
 	"reflect"
 	"sort"
+	"strconv"
 	"unsafe"
 )
 
@@ -103,7 +103,23 @@ func CanonValue(v reflect.Value) []byte {
 func Digest(b []byte) string {
 	h := fnv.New64a()
 	h.Write(b)
-	return fmt.Sprintf("%016x", h.Sum64())
+	return Hex64(h.Sum64())
+}
+
+// Hex64 formats 16 hex digits without package fmt (whose pooled printers are shared between tasks).
+func Hex64(v uint64) string {
+	const d = "0123456789abcdef"
+	var b [16]byte
+	for i := 15; i >= 0; i-- {
+		b[i] = d[v&15]
+		v >>= 4
+	}
+	return string(b[:])
+}
+
+func wInt(b *bytes.Buffer, v int64) {
+	var tmp [24]byte
+	b.Write(strconv.AppendInt(tmp[:0], v, 10))
 }
 
 func canon(b *bytes.Buffer, v reflect.Value, depth int) {
@@ -115,18 +131,21 @@ func canon(b *bytes.Buffer, v reflect.Value, depth int) {
 	case reflect.Bool:
 		// read the raw byte: a decoder may have stored something other than 0/1
 		if v.CanAddr() {
-			fmt.Fprintf(b, "b%d", *(*byte)(unsafe.Pointer(v.UnsafeAddr())))
+			b.WriteByte('b')
+			wInt(b, int64(*(*byte)(unsafe.Pointer(v.UnsafeAddr()))))
 		} else if v.Bool() {
 			b.WriteString("b1")
 		} else {
 			b.WriteString("b0")
 		}
 	case reflect.Int, reflect.Int8, reflect.Int16, reflect.Int32, reflect.Int64:
-		fmt.Fprintf(b, "%d", v.Int())
+		wInt(b, v.Int())
 	case reflect.Uint, reflect.Uint8, reflect.Uint16, reflect.Uint32, reflect.Uint64, reflect.Uintptr:
-		fmt.Fprintf(b, "u%d", v.Uint())
+		b.WriteByte('u')
+		b.WriteString(strconv.FormatUint(v.Uint(), 10))
 	case reflect.Float32, reflect.Float64:
-		fmt.Fprintf(b, "f%016x", math.Float64bits(v.Float()))
+		b.WriteByte('f')
+		b.WriteString(Hex64(math.Float64bits(v.Float())))
 	case reflect.String:
 		s := v.String()
 		writeBytes(b, 's', unsafe.Slice(unsafe.StringData(s), len(s)))
@@ -211,19 +230,23 @@ func canon(b *bytes.Buffer, v reflect.Value, depth int) {
 		}
 		canon(b, v.Elem(), depth+1)
 	default:
-		fmt.Fprintf(b, "<%s>", v.Kind())
+		b.WriteString("<" + v.Kind().String() + ">")
 	}
 }
 
 func writeBytes(b *bytes.Buffer, tag byte, p []byte) {
 	b.WriteByte(tag)
 	if len(p) <= 24 {
-		fmt.Fprintf(b, "%q", p)
+		var tmp [128]byte
+		b.Write(strconv.AppendQuote(tmp[:0], string(p)))
 		return
 	}
 	h := fnv.New64a()
 	h.Write(p)
-	fmt.Fprintf(b, "[%d]#%016x", len(p), h.Sum64())
+	b.WriteByte('[')
+	wInt(b, int64(len(p)))
+	b.WriteString("]#")
+	b.WriteString(Hex64(h.Sum64()))
 }
 
 // ---------------------------------------------------------------- extents (C06)
@@ -307,7 +330,7 @@ func extValue(c *Corpus, t *T, w *W, v reflect.Value, nocopy bool, path string, 
 			return
 		}
 		for i := 0; i < v.Len(); i++ {
-			extValue(c, t.Elem, w.L[i], v.Index(i), false, fmt.Sprintf("%s[%d]", path, i), out)
+			extValue(c, t.Elem, w.L[i], v.Index(i), false, path+"["+strconv.Itoa(i)+"]", out)
 		}
 	case Map:
 		if v.IsNil() || v.Len() == 0 {
@@ -328,7 +351,7 @@ func extValue(c *Corpus, t *T, w *W, v reflect.Value, nocopy bool, path string, 
 			if wv == nil {
 				continue
 			}
-			kp := fmt.Sprintf("%s[%x]", path, kb)
+			kp := path + "[" + hexBytes(kb) + "]"
 			if t.Key.K == String && k.Len() > 0 {
 				s := k.String()
 				*out = append(*out, Extent{uintptr(unsafe.Pointer(unsafe.StringData(s))), uintptr(len(s)), 1, false, kp + "(key)"})
@@ -363,4 +386,94 @@ func keyBytes(t *T, k reflect.Value) []byte {
 		return append(binary.BigEndian.AppendUint32(nil, uint32(len(s))), s...)
 	}
 	return nil
+}
+
+func hexBytes(b []byte) string {
+	const d = "0123456789abcdef"
+	if len(b) > 12 {
+		b = b[:12]
+	}
+	out := make([]byte, 0, 2*len(b))
+	for _, c := range b {
+		out = append(out, d[c>>4], d[c&15])
+	}
+	return string(out)
+}
+
+// Sf is a minimal Sprintf (%d %s %v %x %#x %q) that does not use package fmt's pooled printers.
+func Sf(format string, args ...interface{}) string {
+	out := make([]byte, 0, len(format)+32)
+	ai := 0
+	for i := 0; i < len(format); i++ {
+		c := format[i]
+		if c != '%' || i+1 >= len(format) {
+			out = append(out, c)
+			continue
+		}
+		i++
+		alt := false
+		if format[i] == '#' && i+1 < len(format) {
+			alt = true
+			i++
+		}
+		verb := format[i]
+		if verb == '%' {
+			out = append(out, '%')
+			continue
+		}
+		if ai >= len(args) {
+			out = append(out, "%!missing"...)
+			continue
+		}
+		a := args[ai]
+		ai++
+		base := 10
+		if verb == 'x' {
+			base = 16
+			if alt {
+				out = append(out, "0x"...)
+			}
+		}
+		switch v := a.(type) {
+		case int:
+			out = strconv.AppendInt(out, int64(v), base)
+		case int8:
+			out = strconv.AppendInt(out, int64(v), base)
+		case int16:
+			out = strconv.AppendInt(out, int64(v), base)
+		case int32:
+			out = strconv.AppendInt(out, int64(v), base)
+		case int64:
+			out = strconv.AppendInt(out, v, base)
+		case uint8:
+			out = strconv.AppendUint(out, uint64(v), base)
+		case uint16:
+			out = strconv.AppendUint(out, uint64(v), base)
+		case uint32:
+			out = strconv.AppendUint(out, uint64(v), base)
+		case uint64:
+			out = strconv.AppendUint(out, v, base)
+		case uintptr:
+			out = strconv.AppendUint(out, uint64(v), base)
+		case string:
+			if verb == 'q' {
+				out = strconv.AppendQuote(out, v)
+			} else {
+				out = append(out, v...)
+			}
+		case []byte:
+			if verb == 'x' {
+				out = append(out, hexBytes(v)...)
+			} else {
+				out = strconv.AppendQuote(out, string(v))
+			}
+		case bool:
+			out = strconv.AppendBool(out, v)
+		case error:
+			out = append(out, v.Error()...)
+		default:
+			out = append(out, "?"...)
+		}
+	}
+	return string(out)
 }
